@@ -534,7 +534,7 @@ theorem accept_delay_timing (fuel : Nat) (s : P) (hr : Ready s)
     (h0 : s.kindAt (s.pos + 0) = .DELAY_KW) (h1 : s.kindAt (s.pos + 1) = .L_BRACK) (h2 : s.kindAt (s.pos + 2) = .INT_NUMBER) (h3 : s.kindAt (s.pos + 3) = .IDENT) (h4 : s.kindAt (s.pos + 4) = .R_BRACK) (h5 : s.kindAt (s.pos + 5) = .IDENT) (h6 : s.kindAt (s.pos + 6) = .SEMICOLON) :
     Accepts (stmt (fuel + 40)) s 7
       [.start .DELAY_STMT none, .token .DELAY_KW 1, .start .DESIGNATOR none, .token .L_BRACK 1,
-       .start .TOMBSTONE (some 2), .start .LITERAL none, .start .TIMING_LITERAL none,
+       .start .TOMBSTONE (some 1), .start .TIMING_LITERAL none, .start .LITERAL none,
        .token .INT_NUMBER 1, .finish, .start .IDENTIFIER none, .token .IDENT 1, .finish, .finish,
        .token .R_BRACK 1, .finish, .start .QUBIT_LIST none, .start .IDENTIFIER none,
        .token .IDENT 1, .finish, .finish, .token .SEMICOLON 1, .finish] := by
